@@ -2,7 +2,7 @@
 SPEC = dict(
     title="Reads never modify data; databases change only through the log",
     pkg="./store", files=["store/c17_verif_test.go"],
-    rule="10 hand-picked + 120 (quick) / 2000 (thorough) generated requests of 1-3 texts, each text 0-4 SQL statements (read-only head + writing tail, writing head, "
+    rule="10 hand-picked + 70 (quick) / 1000 (thorough) generated requests of 1-3 texts, each text 0-4 SQL statements (read-only head + writing tail, writing head, "
          "read-only only, prepare error, empty; SELECT, EXPLAIN, PRAGMA read/write, ATTACH, CTE write, RETURNING, CREATE TABLE, temp table, no-op UPDATE; comments and "
          "semicolons in literals/identifiers between statements), each request sent to 14 endpoints: db.Query / db.Request / db.Execute on the node's database object and "
          "Store.Query and Store.Request at levels none, weak, linearizable, strong, auto, and Store.Execute, on a real single-node Store; "
